@@ -74,6 +74,8 @@ def tomo_case(draw, kinds=("qst", "povmt", "qpt", "qmpt"), shapes=("1q",), m_ran
             {"type": "povm", "shape": shape, "m": d, "kind": "naimark", "raw": draw(gen.raw(2 * d * d * d))}
             for _ in range(draw(st.integers(1, 2)))
         ]
+    # the imaginary-part truncation threshold given explicitly (with the default's own value) or left to the default
+    case["eps_trunc"] = draw(st.sampled_from([None, None, 1e-13]))
     if kind == "qst":
         case["true"] = draw(gen.state_case((shape,)))
     elif kind == "povmt":
@@ -115,6 +117,8 @@ def build_tomo(case, **kw):
     flag = case["flag"]
     kind = case["tomo"]
     common = dict(on_para_eq_constraint=flag, seed_data=case.get("seed_data", 7))
+    if case.get("eps_trunc") is not None:
+        common["eps_truncate_imaginary_part"] = float(case["eps_trunc"])
     common.update(kw)
     m = case["true"].get("m")
     if kind == "qst":
